@@ -309,6 +309,40 @@ def run_stream(chk, prog, sim, name, n=None):
                 chk.violation("C02.table", vkey, "%s::get on inputs [%s] (order %s): %s" % (tag, casekey, leaf.pc, mm),
                               fn=fn["pretty"], file=loc(fn["span"]), expected=repr(exp), path=leaf.pc)
                 ok = False
+            if "max_delta" in ctx:
+                lim = ctx["max_delta"].name
+                mixed = [a for a in leaf.state.arith if lim in a[1] or lim in a[2]]
+                if mixed:
+                    chk.violation("C02.table", vkey + ":limit-arithmetic", "%s::get does integer arithmetic on the expiry limit (%s %s %s): the limit is a user parameter whose legitimate values include i64::MAX "
+                                  "('never expire'), so it may only be COMPARED with the data age; adding it to a timestamp overflows (panic in debug, data wrongly expired in release)" % ((tag,) + tuple(mixed[0])),
+                                  fn=fn["pretty"], file=loc(fn["span"]))
+                    ok = False
+            # borrow discipline: the inputs are `Reference`s that may alias one Mutex/RwLock/RefCell-backed object (Sum2::new(x.clone(), x)),
+            # so a second input must not be borrowed while the guard of another is still alive (self-deadlock / BorrowMutError)
+            live = []
+            # (only meaningful when the build has a guard-carrying Reference variant; with the bare-pointer variant alone nothing is locked
+            # and the borrow value has no drop, so its end is not even visible in the MIR)
+            guarded = prog.has_adt("Borrow") and len(prog.adt_by_name("Borrow")["variants"]) > 1
+            for e in (leaf.effects if guarded else ()):
+                if e[0] in ("ref_borrow", "ref_borrow_mut"):
+                    if live:
+                        chk.violation("C02.inputs", okey + ":overlapping-borrows", "%s::get borrows input %s while the borrow of %s is still held (inputs [%s]): two inputs may be clones of one lock-backed Reference, "
+                                      "for which this never returns; the documented outcome (and agreement with the n-ary sibling) needs one borrow at a time" % (tag, e[1], live[-1], casekey),
+                                      fn=fn["pretty"], file=loc(fn["span"]))
+                        ok = False
+                        break
+                    live.append(e[1])
+                elif e[0] == "ref_release" and e[1] in live:
+                    live.remove(e[1])
+            polls = {}
+            for e in leaf.effects:
+                if e[0] == "call" and e[2].split("::")[-1] == "get":
+                    polls[e[1]] = polls.get(e[1], 0) + 1
+            twice = sorted(l for l, k in polls.items() if k > 1)
+            if twice:
+                chk.violation("C02.inputs", okey + ":polled-twice:" + ",".join(twice), "%s::get polls input %s more than once in one call (inputs [%s]): the inputs are external getters, two reads may disagree, "
+                              "so the result need not be the documented outcome of any single input assignment" % (tag, twice, casekey), fn=fn["pretty"], file=loc(fn["span"]))
+                ok = False
             bad = K.mutating_effects(leaf.effects)
             if bad or (self_obj and sim.final_value(leaf.state, leaf.state.mem.get(self_obj)) != sim.final_value(leaf.state, init_self)):
                 chk.violation("C02.pure", tag, "%s::get is not pure: %s" % (tag, bad or "writes to *self"), fn=fn["pretty"])
@@ -342,7 +376,7 @@ def run(chk):
     chk.configs.append("K1")
     chk.rule("C02.table", "abstract outcome of get == documented table for every input assignment and timestamp order")
     chk.rule("C02.pure", "no mutable borrow, mutating trait call or store on any path of get; update is a no-op")
-    chk.rule("C02.inputs", "get polls exactly its declared input fields")
+    chk.rule("C02.inputs", "get polls exactly its declared input fields, each at most once per call")
     sim = S.Sim(prog)
     maxn = 3 if tier == "quick" else 5
     present = 0
